@@ -81,10 +81,10 @@ def step (_ : Unit) (op impl : String) : Unit × DrvOut :=
     -- round 4: frame i of an AC-3 unit must carry the exact conversion of (unit pts + i·1536) to 90 kHz
     match rate.toInt?, pts.toInt?, n.toNat? with
     | some rate, some pts, some n =>
-      let copyName := "protocols_" ++ site ++ "_multiplyAndDivide"
+      let copyName := site ++ "_multiplyAndDivide"
       let model := match Gen.copies3.find? (·.1 == copyName) with
         | some c => " ".intercalate ((List.range n).map fun i =>
-            match c.2.2 (pts + (i : Int) * 1536) 90000 rate with | some r => s!"{r}" | none => "panic")
+            match c.2.2 (pts + Int.ofNat i * 1536) 90000 rate with | some r => s!"{r}" | none => "panic")
         | none => "-"
       let spec :=
         match (words impl).mapM (·.toInt?) with
@@ -92,8 +92,8 @@ def step (_ : Unit) (op impl : String) : Unit × DrvOut :=
         | some got =>
           if got.length ≠ n then s!"FAIL {got.length} frames written instead of {n}"
           else
-            match ((List.range n).zip got).find? (fun (i, g) => g ≠ exact (pts + (i : Int) * 1536) 90000 rate) with
-            | some (i, g) => s!"FAIL frame {i}: PTS {g}, exact conversion of the frame timestamp is {exact (pts + (i : Int) * 1536) 90000 rate}"
+            match ((List.range n).zip got).find? (fun (i, g) => g ≠ exact (pts + Int.ofNat i * 1536) 90000 rate) with
+            | some (i, g) => s!"FAIL frame {i}: PTS {g}, exact conversion of the frame timestamp is {exact (pts + Int.ofNat i * 1536) 90000 rate}"
             | none => "ok"
       ((), { model, spec })
     | _, _, _ => ((), { model := "bad-op" })
